@@ -95,6 +95,8 @@ pub fn c18_families(tier: &str) -> Vec<Family> {
         v.push(fam(US, 4, "u", &ORD_ONE));
         v.push(fam(DS, 4, "u", &ORD_ONE));
         v.push(fam(US, 4, "w12", &ORD_ONE));
+        v.push(fam(US, 5, "u", &ORD_ONE));
+        v.push(fam(US, 4, "w012", &ORD_ONE));
     } else {
         for n in 0..=3 {
             for k in [US, USL, DS, DSL] {
